@@ -265,7 +265,8 @@ def dev_admissible(obs, case, devs):
     else:
         pos = [i for i, k in enumerate(ks)
                if not (("ordinal_ignored" in devs and k["k"] == "ord")
-                       or ("unprojected_ignored" in devs and not projected(k, sel))
+                       or ("unprojected_ignored" in devs and not projected(k, sel)
+                           and not ("join_duplicate_name_key" in devs and k["k"] == "e" and k["x"] == "c2"))
                        or ("aggregate_keys_ignored" in devs and k["k"] == "e" and not plain_column(q, k["x"])))]
         dirs = [ks[i]["d"] for i in pos]
         if "join_duplicate_name_key" in devs:
